@@ -244,6 +244,11 @@ def run(ctx):
                "the options' own factory is cleared before the assigner's answer (if any) is installed" if ok4
                else "a factory already inside the caller's options survives when the assigner returns None for the name: options cloned from a filtered keyspace put that keyspace's filter in effect for a keyspace it was not assigned to")
 
+    # ---- R-C18.6 a filter factory / assigner is consulted for keyspaces opened through the transactional databases too:
+    #      their `keyspace` hands name and options to Database::keyspace unchanged
+    from .. import wrappers as W
+    W.db_wrapper_forwarding(ctx, "R-C18.6", only=("keyspace",))
+
     # ---- borrowed obligations (mechanisms owned by other properties that this property's verdict also rests on)
     # the compaction worker uses the strategy/filter of the keyspace it compacts
     ctx.borrow("C12", ["R-C12.10"], "R-C18.5")
